@@ -298,6 +298,14 @@ def check_handlers(ctx):
             p.outcome.expr is not None else None
         ok = isinstance(e, ast.Call) and isinstance(e.func, ast.Subscript) \
             and len(e.args) == 2
+        if not ok and isinstance(e, ast.Call) and len(e.args) == 2:
+            # the class looked up in the registries some other way
+            # (.get(), a ChainMap of them ...)
+            fx = en.expand(e.func)
+            ft = U(fx)
+            ok = (isinstance(fx, ast.Subscript) or (
+                isinstance(fx, ast.Call) and bool(method_call(fx, 'get')))) \
+                and ('registered_checks' in ft or 'get_extensions(' in ft)
         ctx.ob('C02.HANDLERS', ok, '%s:%d' % (
             ctx.where(pc.module, pc.node).split(':')[0], p.outcome.line),
             pc.qual, 'leaf parser result ' + p.outcome.text(),
